@@ -289,6 +289,18 @@ def closure_cmp(facts, g):
                     neg = not neg
                 if d[0] == 'bin' and d[1] in REL:
                     return d, neg
+                # comparisons of non-primitive ordered types (Instant, Duration) are calls of the PartialOrd methods
+                if d[0] == 'call' and len(d[2]) == 2:
+                    m = {'std::cmp::PartialOrd::lt': 'Lt', 'std::cmp::PartialOrd::le': 'Le', 'std::cmp::PartialOrd::gt': 'Gt',
+                         'std::cmp::PartialOrd::ge': 'Ge', 'std::cmp::PartialEq::eq': 'Eq', 'std::cmp::PartialEq::ne': 'Ne'}.get(d[1])
+                    if m:
+                        return ('bin', m, d[2][0], d[2][1]), neg
+        t = blk['t']
+        if t['t'] == 'call' and t['dest'] == [0] and len(t['args']) == 2:
+            m = {'std::cmp::PartialOrd::lt': 'Lt', 'std::cmp::PartialOrd::le': 'Le', 'std::cmp::PartialOrd::gt': 'Gt',
+                 'std::cmp::PartialOrd::ge': 'Ge', 'std::cmp::PartialEq::eq': 'Eq', 'std::cmp::PartialEq::ne': 'Ne'}.get(t['callee'].get('path'))
+            if m:
+                return ('bin', m, sym.operand(t['args'][0]), sym.operand(t['args'][1])), False
     return None, False
 
 
